@@ -254,4 +254,15 @@ theorem C11_snapshot_api (kind : Kind) (cs : List Call) (sid h0 : Nat) (pairs : 
   intro a h
   exact lockAll_handles a sid h0 pairs (C11_bookkeeping_exact kind cs).inv h
 
+/-- **Thread level: the wake-up a segment performs is the hand-off of its section** — in the scheduled model a stream item enters
+the ready queue of its stream (`Sched.step`: `wakeThread … (wakeOf …)`) exactly when the release / cancellation at the stepping
+thread's park point hands the mutex to it; by `C03_only_handoff_grants` there is no other way for an item to become the owner, by
+`C03_grant_stable` it stays the owner until its stream polls it. (The full bookkeeping invariant `AInv` is proved for the sequential
+API layer; for the scheduled model it is tied to the code by the scheduled correspondence, not proved.) -/
+theorem C11_sched_wake_is_handoff (s : State) (p : Park) (w : Nat) (h : wakeOf s p = some w) :
+    ∃ act : Act, handedTo s act = some w ∧
+      ((∃ x c, p = .gRelease x c ∧ act = .release x) ∨ (∃ x, p = .gCancel x ∧ act = .cancel x) ∨
+       (∃ x r, p = .gCancelS x r ∧ act = .cancel x)) :=
+  wakeOf_is_handoff s p w h
+
 end Lockable
